@@ -1,6 +1,7 @@
 package gabi
 
 import (
+	"encoding/json"
 	"github.com/privacybydesign/gabi/big"
 	"github.com/privacybydesign/gabi/gabikeys"
 	"github.com/privacybydesign/gabi/revocation"
@@ -207,7 +208,113 @@ func vpC11_O3() {
 	vpAssert("verifier reads the witness's current accumulator time", got != nil && got.Time == cur.Time && got.Time == newAcc.Time)
 }
 
+// vpxWireProofD: the proof as it arrives at a verifier after JSON transport. Natively the real
+// encoding/json round trip; symbolically a structural copy that follows the struct tags.
+func vpxWireProofD(p *ProofD) (*ProofD, bool) {
+	bts, err := json.Marshal(p)
+	if err != nil {
+		return nil, false
+	}
+	out := &ProofD{}
+	if err := json.Unmarshal(bts, out); err != nil {
+		return nil, false
+	}
+	return out, true
+}
+
+// C11-O6: transport. An honest disclosure proof with non-revocation part sent over
+// the wire verifies at the receiver, who reads the accumulator it was made
+// against. A revoked holder who makes the proof against the old accumulator but
+// attaches the issuer's newest signed accumulator - keeping the old accumulator
+// in the in-memory field of the message - is rejected: what the verifier uses is
+// only what the issuer signed.
+func vpC11_O6() {
+	s := vpRevocableCredential(0, "")
+	ctx, nonce := vpBigBits("ctx", 256), vpBigBits("nonce", 80)
+	forge := vpBool("revokedHolderForges")
+	var newest *revocation.SignedAccumulator
+	if forge {
+		acc1, ev, err := s.acc.Remove(s.sk, s.cred.NonRevocationWitness.E, s.upd.Events[0])
+		vpAssume(err == nil)
+		upd1, err := revocation.NewUpdate(s.sk, acc1, []*revocation.Event{ev})
+		vpAssume(err == nil)
+		newest = upd1.SignedAccumulator
+	}
+	// (the secret-key randomizer is kept above 2^580: below it the recorded finding about the
+	// verifier's index heuristic, C11-O1, would reject the honest proof)
+	lo, hi := new(big.Int).Lsh(big.NewInt(1), 581), new(big.Int).Lsh(big.NewInt(1), 591)
+	proof, err := vpProveWith(s.cred, []int{1}, true, ctx, nonce, vpBigRange("r0", lo, hi))
+	vpAssume(err == nil)
+	if forge {
+		proof.NonRevocationProof.SignedAccumulator = &revocation.SignedAccumulator{Data: newest.Data, PKCounter: newest.PKCounter, Accumulator: s.acc}
+	}
+	received, ok := vpxWireProofD(proof)
+	// (the text encodings refuse negative integers; an honest response is negative only on the
+	// 2^-80 tail where a commitment randomizer is smaller than challenge times secret)
+	vpAssume(ok)
+	vpAssert("a proof survives JSON transport", received != nil && received.NonRevocationProof != nil)
+	accepted := ProofList{received}.Verify([]*gabikeys.PublicKey{s.pk}, ctx, nonce, false, nil)
+	if forge {
+		vpAssert("a revoked holder's proof carrying the newest signed accumulator is rejected after transport", !accepted)
+		return
+	}
+	vpAssert("an honest non-revocation proof verifies after transport", accepted)
+	got := received.NonRevocationProof.SignedAccumulator.Accumulator
+	vpAssert("after transport the verifier reads the accumulator the proof was made against", got != nil && got.Index == s.acc.Index && got.Time == s.acc.Time)
+}
+
+// C11-O7: the non-revocation part must be about the revocation attribute of the
+// credential being shown. A holder owns a second, unrevoked credential B (witness
+// u_B, e_B) under the same key and had credential A issued with the secret-key
+// attribute (which the holder chooses) equal to e_B. After A's revocation
+// attribute is revoked, the holder shows A with a non-revocation part made from
+// B's witness and tied to the response of attribute 0, hiding A's real
+// revocation attribute behind a large randomizer. This must be rejected.
+func vpC11_O7() {
+	pk, sk := vpKeys(0, 4, 1024, true)
+	upd, err := revocation.NewAccumulator(sk)
+	vpAssume(err == nil)
+	acc, err := upd.SignedAccumulator.UnmarshalVerify(pk)
+	vpAssume(err == nil)
+	witA, err := revocation.RandomWitness(sk, acc)
+	vpAssume(err == nil)
+	witB, err := revocation.RandomWitness(sk, acc)
+	vpAssume(err == nil && witA.E.Cmp(witB.E) != 0)
+	// credential A: (secret = e_B, a1, e_A)
+	attrs := []*big.Int{witB.E, vpBigBits("a1", 256), witA.E}
+	vpAssume(attrs[1].Cmp(witA.E) != 0 && attrs[1].Cmp(witB.E) != 0)
+	sig, err := SignMessageBlock(sk, pk, attrs)
+	vpAssume(err == nil)
+	credA := &Credential{Signature: sig, Pk: pk, Attributes: attrs}
+	// A is revoked; B's witness follows the update
+	acc1, ev, err := acc.Remove(sk, witA.E, upd.Events[0])
+	vpAssume(err == nil)
+	upd1, err := revocation.NewUpdate(sk, acc1, []*revocation.Event{upd.Events[0], ev})
+	vpAssume(err == nil)
+	witB.SignedAccumulator = upd.SignedAccumulator
+	vpAssume(witB.Update(pk, upd1) == nil)
+	// the showing of A
+	ctx, nonce := vpBigBits("ctx", 256), vpBigBits("nonce", 80)
+	b, err := credA.CreateDisclosureProofBuilder([]int{1}, nil, false)
+	vpAssume(err == nil)
+	nb := &NonRevocationProofBuilder{pk: pk, witness: witB, index: witB.SignedAccumulator.Accumulator.Index, randomizer: revocation.NewProofRandomizer()}
+	_, err = nb.Commit()
+	vpAssume(err == nil)
+	b.nonrevBuilder = nb
+	lo, hi := new(big.Int).Lsh(big.NewInt(1), 581), new(big.Int).Lsh(big.NewInt(1), 591)
+	b.attrRandomizers[2] = vpBigRange("r2", lo, hi)
+	bl := ProofBuilderList{b}
+	c, err := bl.ChallengeWithRandomizers(ctx, nonce, map[string]*big.Int{"secretkey": nb.randomizer}, false)
+	vpAssume(err == nil && c.Sign() != 0)
+	pl, err := bl.BuildDistributedProofList(c, nil)
+	vpAssume(err == nil)
+	proof := pl[0].(*ProofD)
+	vpAssert("a revoked credential shown with another credential's witness through the secret-key slot is rejected", !vpVerifyRobust(proof, pk, ctx, nonce))
+}
+
 func init() {
+	vpHarnesses["vpC11_O7"] = vpC11_O7
+	vpHarnesses["vpC11_O6"] = vpC11_O6
 	vpHarnesses["vpC11_O4"] = vpC11_O4
 	vpHarnesses["vpC11_O5"] = vpC11_O5
 }
